@@ -37,12 +37,12 @@ pub fn all_flag_cfgs(offsets: &[u16], notify_ops: bool, legacy_too: bool) -> Vec
     let mut v = vec![];
     for &off in offsets {
         for bits in 0..8u8 {
-            let c = QCfg { indirect: bits & 1 != 0, event_idx: bits & 2 != 0, ap: bits & 4 != 0, legacy: false, start_off: off, notify_ops, abstract_idx: false, trace: false };
+            let c = QCfg { indirect: bits & 1 != 0, event_idx: bits & 2 != 0, ap: bits & 4 != 0, legacy: false, start_off: off, notify_ops, abstract_idx: false, trace: false, reduced: false };
             v.push(c);
         }
         if legacy_too {
-            v.push(QCfg { indirect: false, event_idx: false, ap: false, legacy: true, start_off: off, notify_ops, abstract_idx: false, trace: false });
-            v.push(QCfg { indirect: true, event_idx: true, ap: false, legacy: true, start_off: off, notify_ops, abstract_idx: false, trace: false });
+            v.push(QCfg { indirect: false, event_idx: false, ap: false, legacy: true, start_off: off, notify_ops, abstract_idx: false, trace: false, reduced: false });
+            v.push(QCfg { indirect: true, event_idx: true, ap: false, legacy: true, start_off: off, notify_ops, abstract_idx: false, trace: false, reduced: false });
         }
     }
     v
@@ -122,6 +122,8 @@ pub fn tier_plans(tier: Tier, notify_ops: bool) -> Vec<Plan> {
             Plan { n: 1, depth: if notify_ops { 10 } else { 13 }, cfgs: all_flag_cfgs(&[0, 65533], notify_ops, true) },
             Plan { n: 2, depth: if notify_ops { 7 } else { 9 }, cfgs: all_flag_cfgs(&[0, 65533], notify_ops, true) },
             Plan { n: 4, depth: if notify_ops { 4 } else { 5 }, cfgs: all_flag_cfgs(&[0, 65534], notify_ops, false) },
+            // Deeper histories over a reduced set of shapes (indirect and direct, no access_platform).
+            Plan { n: 4, depth: if notify_ops { 5 } else { 7 }, cfgs: all_flag_cfgs(&[0], notify_ops, false).into_iter().filter(|c| !c.ap).map(|mut c| { c.reduced = true; c }).collect() },
         ],
         Tier::Thorough => vec![
             Plan { n: 1, depth: 12, cfgs: all_flag_cfgs(&[0, 65535, 65534, 65532, 65530, 65526], notify_ops, true) },
